@@ -19,13 +19,17 @@ class ChainFinder(object):
     def load_nodes(self, nodes: Iterable[tuple[Any, Any]]) -> None:
         # register everything
         new_hashes: set[Any] = set()
-        for h, parent in nodes:
-            if h in self.parent_lookup:
-                continue
-            self.parent_lookup[h] = parent
-            new_hashes.add(h)
-        if new_hashes:
-            self.meld_new_hashes(new_hashes)
+        try:
+            for h, parent in nodes:
+                if h in self.parent_lookup:
+                    continue
+                self.parent_lookup[h] = parent
+                new_hashes.add(h)
+        finally:
+            # if the iterator raises, what it yielded so far is registered: place it too,
+            # or it would be skipped as already known whenever it is sent again
+            if new_hashes:
+                self.meld_new_hashes(new_hashes)
 
     def meld_new_hashes(self, new_hashes: set[Any]) -> None:
         # make a list
